@@ -1235,22 +1235,37 @@ def run(ctx):
     # ---- directed: pointers initialised with string literals must refer to storage holding exactly that literal
     #      (wide literals of equal length with a common prefix; narrow vs wide literal with the same first bytes)
     ptr_src = ('int *w1 = L"alpha", *w2 = L"alias"; unsigned short *h1 = u"abcdefg", *h2 = u"abcdxyz"; unsigned *U1 = U"xyz12345", *U2 = U"xyz54321";\n'
-               'char *c1 = "a"; unsigned short *c2 = u"a"; char *c3 = "abcd", *c4 = "abce";\n')
-    want_ptr = {'w1': [97, 108, 112, 104, 97, 0], 'w2': [97, 108, 105, 97, 115, 0], 'h1': [97, 98, 99, 100, 101, 102, 103, 0], 'h2': [97, 98, 99, 100, 120, 121, 122, 0],
-                'U1': [120, 121, 122, 49, 50, 51, 52, 53, 0], 'U2': [120, 121, 122, 53, 52, 51, 50, 49, 0], 'c1': [97, 0], 'c2': [97, 0], 'c3': [97, 98, 99, 100, 0], 'c4': [97, 98, 99, 101, 0]}
+               'char *c1 = "a"; unsigned short *c2 = u"a"; char *c3 = "abcd", *c4 = "abce";\n'
+               # literals of different element width with the SAME bytes: contents may be shared, the alignment must be the stricter one
+               'char *s1 = "a\\0\\0"; unsigned short *s2 = u"a"; char *s3 = "b\\0\\0\\0\\0\\0\\0"; int *s4 = L"b"; unsigned *s5 = U"c"; char *s6 = "c\\0\\0\\0\\0\\0\\0";\n')
+    # name -> (element width in bytes, elements incl. terminator)
+    want_ptr = {'w1': (4, [97, 108, 112, 104, 97, 0]), 'w2': (4, [97, 108, 105, 97, 115, 0]), 'h1': (2, [97, 98, 99, 100, 101, 102, 103, 0]), 'h2': (2, [97, 98, 99, 100, 120, 121, 122, 0]),
+                'U1': (4, [120, 121, 122, 49, 50, 51, 52, 53, 0]), 'U2': (4, [120, 121, 122, 53, 52, 51, 50, 49, 0]), 'c1': (1, [97, 0]), 'c2': (2, [97, 0]),
+                'c3': (1, [97, 98, 99, 100, 0]), 'c4': (1, [97, 98, 99, 101, 0]),
+                's1': (1, [97, 0, 0, 0]), 's2': (2, [97, 0]), 's3': (1, [98, 0, 0, 0, 0, 0, 0, 0]), 's4': (4, [98, 0]), 's5': (4, [99, 0]), 's6': (1, [99, 0, 0, 0, 0, 0, 0, 0])}
     rc, out, err = ctx.qbe(ptr_src)
     refs = dict(re.findall(r'data \$(\w+) = align 8 \{ l \$(\.Lstring\.\d+), \}', out))
-    bodies = dict(re.findall(r'data \$(\.Lstring\.\d+) = align \d+ \{ (.*?) \}', out))
+    bodies = {n: (int(a), b) for n, a, b in re.findall(r'data \$(\.Lstring\.\d+) = align (\d+) \{ (.*?) \}', out)}
 
-    def elems(body):
-        m = re.match(r'b "(.*)",', body)
-        if m:
-            return [int(x[1:], 8) if x.startswith('\\') else ord(x) for x in re.findall(r'\\[0-7]{3}|.', m.group(1))]
-        return [int(x) for x in re.findall(r'\d+', body)]
-    for nm, exp in want_ptr.items():
-        got = elems(bodies.get(refs.get(nm, ''), '')) if rc == 0 else None
-        if got != exp:
-            ctx.violation('pointer %s initialised with a string literal refers to storage holding %r, expected %r' % (nm, got, exp),
+    def data_bytes(body):
+        res = []
+        for ty, rest in re.findall(r'([bhwlz]) ((?:"(?:[^"\\]|\\.)*"|[-\d ]+)+),', body):
+            for item in re.findall(r'"(?:[^"\\]|\\.)*"|-?\d+', rest):
+                if item.startswith('"'):
+                    res += [int(x[1:], 8) if x.startswith('\\') else ord(x) for x in re.findall(r'\\[0-7]{3}|.', item[1:-1])]
+                elif ty == 'z':
+                    res += [0] * int(item)
+                else:
+                    w = {'b': 1, 'h': 2, 'w': 4, 'l': 8}[ty]
+                    res += list((int(item) % (1 << (8 * w))).to_bytes(w, 'little'))
+        return res
+    for nm, (w, exp) in want_ptr.items():
+        al, body = bodies.get(refs.get(nm, ''), (0, '')) if rc == 0 else (0, '')
+        got = data_bytes(body)
+        expb = [b for v in exp for b in v.to_bytes(w, 'little')]
+        if got != expb or al < w:
+            ctx.violation('pointer %s initialised with a string literal refers to storage holding bytes %r aligned to %d, expected %r aligned to at least %d'
+                          % (nm, got, al, expb, w),
                           json.dumps(dict(what='string literal address constant', key='string-literal-address', target='x86_64-sysv', auto=False, source=ptr_src, corpus=True), indent=1),
                           'json', 'string-literal-address')
             break
